@@ -455,9 +455,11 @@ def c15(tier):
         tasks = wf_corpus(tier, Q(tier, "two", "six"), sample_q=37, sample_t=211)
         t2, _ = soup_tasks("full", 2, "six", sample_every=Q(tier, 1999, 997))
         tasks += t2 + trunc_tasks("six", Q(tier, 11, 2), sample_every=997) + walk_tasks(Q(tier, 5000, 100000), "six", sample_every=997)
+        # CRLF sources: the line breaks inside multi-line comments and literals are CRLF too
+        tasks += program_tasks(tier, "six", [CRLFML, CRLFML2], cfg_mode="rotate", sample_every=Q(tier, 499, 4999))
         c.explore(tasks, f"cursors_{label}", ["C15"], vh=vh, sample_cap=Q(tier, 100, 500))
     return c.finish(
-        rule="for every input a cursor list (every token start and end, offsets inside blanks and inside multi-line tokens, 0, end, end+1, end+7, 2^32-1; at most 400 per input) is tracked; "
+        rule="for every input a cursor list (every token start and end, offsets inside blanks and inside multi-line tokens, 0, end, end+1, end+7, 2^32-1; at most 400 per input; in ascending, descending, interleaved or repeated order) is tracked; inputs: seeds, programs derived from Grammar.tla (also as CRLF sources whose multi-line comments and literals hold CRLF), soup, truncations, walks; "
              "clauses: text unchanged (relation cursor), within output on a character boundary, same offset inside an unchanged token, beyond the end -> end")
 
 
@@ -531,6 +533,8 @@ DIRECTIVES = {"mode": 1, "comments": True, "directives": True, "blank_lines": Tr
 ONELINE = {"mode": 0}
 ALLBREAKS = {"mode": 3}
 CRLFTABS = {"mode": 4, "blank_lines": True}
+CRLFML = {"mode": 4, "comments": True, "crlf_tokens": True, "blank_lines": True}
+CRLFML2 = {"mode": 2, "comments": True, "crlf_tokens": True}
 CRONLY = {"mode": 5, "comments": True, "cr_comments": True}
 CRCOMMENTS = {"mode": 2, "comments": True, "cr_comments": True, "tight": True}
 REGIONS = {"mode": 1, "regions": True, "comments": True}
